@@ -147,6 +147,18 @@ def case_fi(ctx, spec):
     except Exception as e:
         raise Discard("run raised (C10/C17's business): %s" % type(e).__name__)
     s = b.strategy
+    # the decomposition below reads each security's multiplier from the node: it has to be the one the security was constructed with
+    def _kids(nd):
+        for c in (nd.get("children") or []):
+            if isinstance(c, dict) and "sec" in c:
+                yield nd, c
+            elif isinstance(c, dict) and "name" in c:
+                yield from _kids(c)
+    for m in s.members:
+        if isinstance(m, bt.core.SecurityBase):
+            want = [c.get("mult", 1) for nd, c in _kids(base["tree"]) if c["sec"] == m.name and nd["name"] == m.parent.name]
+            if want and float(m.multiplier) != float(want[0]):
+                raise Violation("%s (%s) was constructed with multiplier %r but runs with %r" % (m.full_name, type(m).__name__, want[0], m.multiplier), signature="fi:multiplier-lost")
     attribution(bt, s, 1e6, tag="fi")
     carry = any(isinstance(m, bt.core.CouponPayingSecurity) and ((np.asarray(m.coupons, dtype=float) != 0) | (np.asarray(m.holding_costs, dtype=float) != 0)).any() for m in s.members)
     return {"nontrivial": bool(carry), "labels": ["carry"] if carry else []}
